@@ -3,6 +3,7 @@
 package helpers
 
 // Contracts for the verifier in /verif (govc). Comment-only.
+// (namedNumericZero: the falsy values of defined types - numeric zero, false of a bool type, "" or "false" of a string type)
 
 //@ spec func namedNumericZero(v Val) bool
 //@ spec func truthySpec(v Val) bool {
